@@ -745,6 +745,11 @@ def build_xlsx(seed: int, feature: str | None = None, twin: bool = False):
                     d = _dt.datetime(1899, 12, 30) + _dt.timedelta(days=serial)
                     cells.append(f'<c r="{ref}" s="1"><v>{serial}</v></c>')
                     grow.append({"v": d.isoformat()})
+                elif k < 0.925:
+                    # a time of day: number format h:mm:ss, serial in [0, 1)
+                    hh, mm, ss = rng.randint(0, 23), rng.randint(0, 59), rng.choice([0, 0, 30, 59])
+                    cells.append(f'<c r="{ref}" s="4"><v>{(hh * 3600 + mm * 60 + ss) / 86400!r}</v></c>')
+                    grow.append({"v": f"{hh:02d}:{mm:02d}:{ss:02d}"})
                 elif k < 0.95:
                     v = rng.randint(1, 500)
                     cells.append(f'<c r="{ref}"><f>SUM(1,{v - 1})</f><v>{v}</v></c>')
